@@ -439,3 +439,20 @@ def clones_own_their_datatypes(ctx):
             ctx.check(bool(copies), f'{f.qualname}:{a} is copied', f.node, f'a .copy() of the {a} is stored in the clone',
                       f'{f.qualname} never stores a copy of `{a}`: the clone (every module instance, every subclass override) shares the '
                       f'{a} datatype object with the class it was cloned from', f)
+
+
+@rule('C09.R2e', min_instances=1)
+def command_datatype_is_rebuilt_from_the_own_argument_and_result(ctx):
+    """Command.finish stores a CommandType built from the CURRENT self.argument / self.result on every path: clone() first
+    applies the class-level datatype and then replaces argument and result by private copies - a finish() that keeps the old
+    CommandType "because its exported content is equal" leaves the instance holding the class's argument / result objects"""
+    m = ctx.m
+    f = m.method(roles.COMMAND, 'finish', inherited=False)
+    ctx.analysed(f)
+    cfg = CFG(f.node, m, f.module)
+    stores = [i for t, v, s in attr_stores(f.node) if t.attr == 'datatype' and dotted(t.value) == 'self' for i in cfg.node_of(s)]
+    built = any(isinstance(c, ast.Call) and dotted(c.func) == 'CommandType' and 'self.argument' in src(c) and 'self.result' in src(c) for c in calls_in(f.node))
+    ok = bool(stores) and built and cfg.all_paths_pass([cfg.entry], [cfg.exit], stores, exc=False)
+    ctx.check(ok, f'{f.qualname}:datatype rebuilt on every path', f.node, 'self.datatype = CommandType(self.argument, self.result) unconditionally',
+              'finish() can leave self.datatype as it was: after clone() the CommandType still refers to the argument / result objects of the class, so a run-time '
+              'change through one instance changes the class, the other instances and every instance created later', f)
